@@ -167,3 +167,40 @@ def ref_mean(h, spec, X, q, th):
     if spec == "lin":
         return th[0] + sum((q[c] - xm[c]) * th[1 + c] for c in range(d))
     return th[0] + sum((q[c] - xm[c]) * th[1 + c] for c in range(d)) + sum((q[c] - xm[c]) ** 2 * th[1 + d + c] for c in range(d))
+
+
+# ----------------------------------------------------------------------------- smooth families
+def smooth_family(nargs, seed, positive=False):
+    """a concrete smooth function of `nargs` reals and its exact partial derivatives (used when a
+    replay needs an actual function where the symbolic run used an uninterpreted one)"""
+    import math
+    A = 0.3 + 0.1 * (seed % 5)
+    B = [0.2 + 0.05 * ((seed + 3 * k) % 7) for k in range(nargs)]
+    P = [0.4 * ((seed + k) % 4) for k in range(nargs)]
+    C = 0.15 + 0.02 * (seed % 3)
+
+    def core(*t):
+        return A + sum(B[k] * math.sin(t[k] + P[k]) for k in range(nargs)) + C * math.prod(math.cos(0.5 * x) for x in t)
+
+    def dcore(k):
+        def g(*t):
+            return B[k] * math.cos(t[k] + P[k]) - 0.5 * C * math.sin(0.5 * t[k]) * math.prod(math.cos(0.5 * x) for j, x in enumerate(t) if j != k)
+        return g
+    if not positive:
+        return core, [dcore(k) for k in range(nargs)]
+
+    def f(*t):
+        return math.exp(core(*t))
+
+    def df(k):
+        dk = dcore(k)
+        return lambda *t: math.exp(core(*t)) * dk(*t)
+    return f, [df(k) for k in range(nargs)]
+
+
+def smooth_ufunc(h, name, nargs, seed, positive=False):
+    """uninterpreted smooth function `name` with partial-derivative symbols `name_d<k>`"""
+    f, dfs = smooth_family(nargs, seed, positive)
+    F = h.ufunc(name, nargs, family=[f])
+    dF = [h.ufunc(f"{name}_d{k}", nargs, family=[dfs[k]]) for k in range(nargs)]
+    return F, dF
